@@ -163,7 +163,21 @@ class Ck:
             self.tie_broken.append(f'proof build failed at {where}')
         else:
             self.obligation('build:' + ','.join(targets), True, 'all theorems re-checked by coqc')
+        if not getattr(self, '_hygiene_done', False):
+            self._hygiene_done = True
+            self.hygiene()
         return ok
+
+    def hygiene(self) -> bool:
+        """Scan every .v file of the development (Gen included) and _CoqProject for constructs that would make a theorem
+        worthless: Admitted/admit/give_up, Axiom/Parameter/Conjecture, Admit Obligations, Variable/Hypothesis/Context outside a
+        Section, switched-off kernel checks. Recorded as one obligation; a hit breaks the tie (nothing proved can be believed)."""
+        bad = scan_hygiene()
+        self.obligation('hygiene:no_admitted_axiom_parameter_or_unchecked_flag', not bad,
+                        'all .v files scanned (comments removed): none found' if not bad else '; '.join(bad[:20]))
+        if bad:
+            self.tie_broken.append('hygiene: ' + '; '.join(bad[:5]))
+        return not bad
 
     def theorems(self, props_file: str) -> list[str]:
         """Count the theorems of a Props file and collect their Print Assumptions output."""
@@ -415,6 +429,67 @@ def _split_assumptions(out: str, n: int) -> list[list[str]]:
     while len(blocks) < n:
         blocks.append(['<unparsed>'])
     return blocks
+
+
+def _strip_coq_comments(txt: str) -> str:
+    """Remove (nested) comments and string literals, keeping newlines so that line numbers survive."""
+    out, i, depth, n = [], 0, 0, len(txt)
+    while i < n:
+        if txt.startswith('(*', i):
+            depth += 1
+            i += 2
+        elif depth and txt.startswith('*)', i):
+            depth -= 1
+            i += 2
+        elif depth:
+            out.append('\n' if txt[i] == '\n' else ' ')
+            i += 1
+        elif txt[i] == '"':
+            j = i + 1
+            while j < n and txt[j] != '"':
+                j += 1
+            out.append('""' + '\n' * txt.count('\n', i, j))
+            i = j + 1
+        else:
+            out.append(txt[i])
+            i += 1
+    return ''.join(out)
+
+
+_FORBIDDEN = re.compile(r'\b(Admitted|admit|give_up|Axiom|Axioms|Parameter|Parameters|Conjecture|Conjectures|bypass_check)\b'
+                        r'|Admit\s+Obligations|Unset\s+Guard\s+Checking|Unset\s+Positivity\s+Checking|Unset\s+Universe\s+Checking'
+                        r'|Unset\s+Universe\s+Polymorphism\s+Checking|type-in-type|impredicative-set')
+_SENT = re.compile(r'(?:^|(?<=[.\s]))\s*(?:Local\s+|Global\s+|#\[[^\]]*\]\s*)*'
+                   r'(Section|Module\s+Type|Module|End|Variable|Variables|Hypothesis|Hypotheses|Context)\b\s*([A-Za-z0-9_\']*)', re.M)
+
+
+def scan_hygiene() -> list[str]:
+    bad: list[str] = []
+    files = sorted(ROCQ.rglob('*.v'))
+    for f in files:
+        rel = f.relative_to(ROCQ)
+        txt = _strip_coq_comments(f.read_text(errors='replace'))
+        for m in _FORBIDDEN.finditer(txt):
+            bad.append(f'{rel}:{txt.count(chr(10), 0, m.start()) + 1}: {" ".join(m.group(0).split())}')
+        stack: list[str] = []
+        for m in _SENT.finditer(txt):
+            kw = ' '.join(m.group(1).split())
+            if kw in ('Section', 'Module', 'Module Type'):
+                # `Module M := N.` / `Module Import`-style one-liners open nothing
+                tail = txt[m.end():txt.find('.', m.end()) + 1]
+                if kw != 'Section' and ':=' in tail:
+                    continue
+                stack.append('S' if kw == 'Section' else 'M')
+            elif kw == 'End':
+                if stack:
+                    stack.pop()
+            elif 'S' not in stack:
+                bad.append(f'{rel}:{txt.count(chr(10), 0, m.start(1)) + 1}: {kw} outside a Section')
+    cp = ROCQ / '_CoqProject'
+    if cp.exists():
+        for m in _FORBIDDEN.finditer(cp.read_text()):
+            bad.append(f'_CoqProject: {m.group(0)}')
+    return bad
 
 
 def load_known() -> dict:
